@@ -1,5 +1,5 @@
 SPECIFICATION Spec
-CONSTANTS NSubs = 2 B = 1 Progs <- ProgsSP3 Interval = 0 MaxNow = 0 DepartFix = TRUE
+CONSTANTS NSubs = 2 B = 1 Progs <- ProgsSP3 Interval = 0 MaxNow = 0 DepartFix = TRUE SkipEndedSubscriber = FALSE
 INVARIANTS CommonOrder ChannelsClosedAtReturn
-PROPERTIES QuietAfterClose CloseReturns
+PROPERTIES QuietAfterClose CloseReturns DepartedClosed
 CHECK_DEADLOCK FALSE
